@@ -91,6 +91,13 @@ CHECKS = {
             "statistics in eval, inverse availability, flag persistence.",
             "Reference model written from the docstrings; either variance convention accepted but it must stay fixed; no "
             "optimiser steps generated.", "DESIGN.md 3/C14"),
+    "C15": ("Hypothesis-generated models and pre-save histories; differential between the original and a differently seeded "
+            "fresh instance after strict load_state_dict (optionally via torch.save/load); bitwise comparison",
+            "Exploration: transforms with constructor-time randomness, flows (embedding nets, conditional bases), "
+            "MaskedAutoregressiveFlow and SimpleRealNVP, saved fresh / after SGD steps / after training-mode forwards, reloaded "
+            "into an instance built under another seed: forward, inverse, log_prob, noise and seeded samples bit-identical in "
+            "eval mode, and the same training-mode call on copies of both agrees.",
+            "Bit-identity relies on one BLAS thread in one process (OMP_NUM_THREADS=1 set by ./check).", "DESIGN.md 3/C15"),
     "C17": ("Hypothesis-generated boundary probes (on / 1,2,8 ulp inside / 1,2,8 ulp outside / far) at any batch position, for "
             "every domain-restricted transform and direction, float32 and float64; exception-type and finiteness oracle",
             "Exploration: one probe element placed relative to the domain edge (in the working dtype) among valid elements, for "
